@@ -243,7 +243,7 @@ def run(pid, tier, seed):
         for k, what in replay(pid, rc["case"]):
             camp.fail(k, what, rc["case"])
     camp.merge(core.run_shards(shard, [dict(seed=core.seed_of(seed, s, 7), n=n, per_prog=per_prog, cli_every=cli_every) for s in range(shards)]))
-    return core.finish(pid, tier, seed, camp, RULE, t0, assumptions=[
+    return core.finish(pid, tier, seed, camp, RULE, t0, replay_fn=replay, assumptions=[
         "Context.pop_tokens is the only consumer of tokens (asserted: nothing is left at the end of a non-fatal run)",
         "'unrecognisable' is limited to the eight self-delimiting fragments",
     ])
